@@ -13,6 +13,7 @@ import (
 	"runtime/debug"
 	"strconv"
 	"strings"
+	"time"
 )
 
 type Value struct {
@@ -185,7 +186,8 @@ func Observe(label string, v any) {
 func Atomic(fn func()) { fn() }
 
 func Yield()               {}
-func Quiesce()             {}
+// Quiesce natively approximates "everything else ran until it blocked" by a short sleep.
+func Quiesce() { time.Sleep(3 * time.Millisecond) }
 func SetUnwind(n int)      {}
 func SetPreemptions(n int) {}
 
